@@ -340,7 +340,18 @@ def run_history(case, tmpdir):
                     o.update(status="ctor-raise", error="%s: %s" % (type(e).__name__, str(e)[:200]), executed=[])
                     obs.append(o)
                     return
+                dag_before = dict(cur.results)
+                cache_before = None
+                if "from_cache" in kw:
+                    try:
+                        cache_before = dict(pickle.load(open(kw["from_cache"], "rb")))
+                    except BaseException:  # noqa: BLE001
+                        cache_before = None
                 st, ex, cnt, ctl = run_op(cur, lambda: exo(*op["args"]))
+                if cache_before is not None and ctl.res0s:
+                    # what the scheduler was handed for this restart (checked against Cache.ksource)
+                    o["start_map"] = dict(res0=dict(ctl.res0s[0]), dag=dag_before, cache=cache_before,
+                                          inputs=[u.id for u in cur.input_uxns], nargs=len(op["args"]), args=list(op["args"]))
                 if st[0] == "ok" and op["cache_in"]:
                     try:
                         keys = sorted(pickle.load(open(kw["cache_in"], "rb")).keys())
@@ -494,6 +505,7 @@ def run(pid, tier, seed, res, only=None):
     os.makedirs(tmpdir, exist_ok=True)
     dist = collections.Counter()
     items, where = [], []
+    src_items, src_where = [], []
     cases = []
     for f in sorted(__import__("glob").glob(os.path.join(coqrun.VERIF, "corpus", "hist", "*.json"))):
         cases.append(json.load(open(f))["case"])
@@ -602,6 +614,16 @@ def run(pid, tier, seed, res, only=None):
                 keys = o.get("cache_keys_written", [])
                 if any(x in keys for x in depn):
                     res.hit("C18", "monitor", "cache_deps_of=%s: the file holds the result of %s" % (depn, [x for x in depn if x in keys]), dict(base, kind="monitor", op_index=oi))
+        # ---- restarts: where every entry of the map handed to the scheduler comes from (Cache.ksource)
+        for oi, o in enumerate(obs):
+            sm = o.get("start_map")
+            if not sm:
+                continue
+            keys_ = sorted(set(sm["res0"]) | set(sm["dag"]) | set(sm["cache"]) | set(sm["inputs"]), key=str)
+            kid = {k_: j_ for j_, k_ in enumerate(keys_)}
+            src_items.append("ksource %s %s %s %d %s" % (coqrun.nat_list([kid[k_] for k_ in sm["dag"]]), coqrun.nat_list([kid[k_] for k_ in sm["cache"]]),
+                                                       coqrun.nat_list([kid[k_] for k_ in sm["inputs"]]), min(sm["nargs"], len(sm["inputs"])), coqrun.nat_list(list(range(len(keys_))))))
+            src_where.append((base, oi, sm, keys_))
         # ---- model
         ids, term, index = model_term(case, d, obs)
         # the model replays ONE lineage; histories with a deepcopy are compared only up to the copy
@@ -666,8 +688,30 @@ def run(pid, tier, seed, res, only=None):
                 extra = sorted(set(o["executed"]) - set(mnames))
                 if extra:
                     res.hit("C03", "monitor", "failing operation %d executed %s outside its selection %s" % (oi, extra, mnames), dict(base, kind="monitor", op_index=oi))
+    if src_items:
+        paths_s = coqrun.write_shards(prefix + "src", "Graph Cache", src_items, per_file=200)
+        results_s, errors_s = coqrun.run_shards(paths_s)
+        coqrun.clean_build(prefix + "src")
+        if errors_s:
+            res.hit(pid, "divergence", "coqc failed on K-hist start-map files: " + errors_s[0][2][-300:], dict(kind="coqc-error"))
+        MISSING = object()
+        for k_, (base, oi, sm, keys_) in enumerate(src_where):
+            v = results_s.get(k_)
+            if v is None or len(v) != len(keys_):
+                res.hit(pid, "divergence", "no model result for a restart's start map", dict(base, kind="no-result", op_index=oi))
+                continue
+            for key_, code in zip(keys_, v):
+                exp = {3: lambda: sm["args"][sm["inputs"].index(key_)], 2: lambda: sm["cache"][key_], 1: lambda: sm["dag"][key_], 0: lambda: MISSING}[code]()
+                got = sm["res0"].get(key_, MISSING)
+                if not (got is exp or got == exp):
+                    for p_ in ("C18", "C15"):
+                        res.hit(p_, "divergence", "K-hist: restart (operation %d): the scheduler was handed %r for %s, Cache.start_map reads it from %s: %r" % (
+                            oi, None if got is MISSING else got, key_, {3: "the call's arguments", 2: "the cache file", 1: "the DAG-level map", 0: "nowhere"}[code], None if exp is MISSING else exp),
+                            dict(base, kind="divergence", op_index=oi))
+                    break
+        dist["start_maps"] = len(src_where)
     res.distribution["khist"] = dict(dist)
-    res.engine_info["khist"] = dict(histories=len(cases), model_evaluations=len(items))
+    res.engine_info["khist"] = dict(histories=len(cases), model_evaluations=len(items) + len(src_items))
     if cases:
         res.samples.append(dict(engine="khist", case=cases[min(2, len(cases) - 1)]))
     import shutil
